@@ -619,7 +619,7 @@ func (l *lexer) lexDo() action {
 
 func (l *lexer) lexFuncDef() action {
 	l.emit('(')
-	if tok := l.scanToken(); tok != ')' {
+	if tok := l.scanToken(); tok != ')' || l.bquote {
 		return l.lexToken(tok)
 	}
 	l.emit(')')
@@ -998,6 +998,12 @@ func (l *lexer) scanRaw() int {
 				if l.lit(); len(l.word) != 0 {
 					l.unread()
 					return WORD
+				}
+				if len(l.stack) > 1 {
+					// the backquoted text ends inside a compound command
+					l.mark(-1)
+					l.error(l.pos, "syntax error: unexpected '`'")
+					return -1
 				}
 				if len(l.stack) != 0 {
 					l.bquote = true
